@@ -225,7 +225,10 @@ def _get_unused_imports(ast_tree: ast.Module) -> Collection[str]:
             full_name = re.sub(r"\.[^\.]*$", "", full_name)
             names.add(full_name)
 
-    return imports - names
+    # `import package.module` also binds `package`
+    used_through_package = {name for name in imports if "." in name and name.split(".")[0] in names}
+
+    return imports - names - used_through_package
 
 
 def _get_unused_imports_split(
